@@ -25,8 +25,8 @@ import asyncio
 
 from ..core import Prop, jsonable
 from ..loop import SimDeadlock, SimStepLimit, SimTimeLimit, run_sim
-from ..models.ws import (CONNECTED, CONNECTING, DISCONNECTED, STATE_NAMES, STATE_ORDER, T_CLOSE, T_CONNECT, T_DISCONNECT,
-                         T_RECEIVE, WsModel, WsPeer, build_script, event_matches, frame_of, grammar_ok, op_event, op_name)
+from ..models.ws import (CONNECTED, DISCONNECTED, STATE_NAMES, STATE_ORDER, T_CONNECT, T_DISCONNECT, T_RECEIVE, WsModel, WsPeer,
+                         build_script, event_matches, frame_of, grammar_ok, op_event, op_name)
 
 MSG_DELAYS = (0.0, 0.0, 0.1, 0.5)
 OP_DELAYS = (0.0, 0.0, 0.0, 0.1, 0.3, 0.5)
